@@ -116,11 +116,11 @@ REGISTRY = {
     "C16": {
         "corr": "C16",
         "trusted": [
-            "modelled: consumer-side Start with a single producer, Map/Filter/FlatMap chains as compositions, Reorder (buffer, stable sort on watermark / round end)",
+            "modelled: consumer-side Start with a single producer, Map/Filter/FlatMap chains as compositions, Reorder (buffer, stable sort on watermark / round end); every element-wise API operator as an instance of one stateful flat-map machine (Model/Ops2.v: filter_map, flatten, inspect, rich_map / rich_flat_map / rich_filter_map plain and keyed, keyed flat_map / filter_map / flatten, key_by / unkey / drop_key), add_timestamps (with its panic on timestamped input) and drop_timestamps",
             "assumed: glidesort sorts stably; a flume channel is FIFO; Batcher emits the producer's elements in order (C02)",
         ],
         "assumptions": ["reorder inputs are consistent with their watermarks (wm_safe)"],
-        "level_text": "Proof: a single producer's stream cut into arbitrary batches passes the consumer's Start unchanged (identity theorem); chains are compositions of element-wise operator semantics; reorder() output is sorted, a permutation of its input per round, released only when covered, stable for ties. Tied to the code by driving a real Start->map->filter->flat_map chain with one sender and arbitrary batch cuttings, and the real reorder chain with out-of-order scripts full of ties.",
+        "level_text": "Proof: a single producer's stream cut into arbitrary batches passes the consumer's Start unchanged (identity theorem); chains are compositions of element-wise operator semantics; every element-wise API operator (filter_map, flatten, inspect, the rich_* family, keyed forms) emits exactly the sequential scan of its closure over the arriving values, per key for keyed state; add/drop_timestamps keep every value in place; reorder() output is sorted, a permutation of its input per round, released only when covered, stable for ties. Tied to the code by driving a real Start->map->filter->flat_map chain with one sender and arbitrary batch cuttings, random chains of 1-5 element-wise API operators built through the public API (operator zoo: compared element by element with the model and value by value with an independent iterator-chain oracle), and the real reorder chain with out-of-order scripts full of ties.",
         "level_note": "Trusted: Coq kernel/vm_compute, hand-written model (checked by correspondence), harness. No axioms.",
         "explanation": "C16_* proved; correspondence on sequential links and reorder.",
     },
@@ -184,7 +184,7 @@ REGISTRY = {
     "C05": {
         "corr": "C05",
         "trusted": [
-            "modelled: every component named in the theorems (Start, two-input Start, Map/Filter/FlatMap/KeyBy/Fold/KeyedFold/Reorder, window operator with count / event-time / transaction managers, hash / sort-merge / keyed joins, zip, merge)",
+            "modelled: every component named in the theorems (Start, two-input Start, Map/Filter/FlatMap/KeyBy/Fold/KeyedFold/Reorder, every element-wise API operator as an instance of the stateful flat-map machine of Model/Ops2.v (filter_map, flatten, inspect, rich_* plain and keyed), add_timestamps / drop_timestamps, window operator with count / event-time / transaction managers, hash / sort-merge / keyed joins, zip, merge)",
             "RoundSync (no replica's next-iteration data overtakes another's FlushAndRestart) is a hypothesis at a block input; inside loops it is what the loop protocol provides (C10)",
         ],
         "assumptions": ["upstream replicas run the same number of iterations (necessary: counterexample theorem)"],
@@ -196,7 +196,7 @@ REGISTRY = {
         "corr": "C06",
         "classes": {1: "F6"},
         "trusted": [
-            "modelled: WatermarkFrontier + Start, chain operators, reorder, zip, merge, window operator with count and event-time managers (with the F5 fix)",
+            "modelled: WatermarkFrontier + Start, chain operators (incl. every element-wise API operator, Model/Ops2.v), add_timestamps (the origin of watermarks: safe under monotone user timestamps, C06_add_timestamps; refuted without) / drop_timestamps, reorder, zip, merge, window operator with count and event-time managers (with the F5 fix)",
             "interval join swallows watermarks and add_timestamps relies on the user's watermark generator: outside the proved set",
         ],
         "assumptions": ["inputs respect the contract per upstream replica; count windows over timestamped-only input"],
